@@ -76,7 +76,8 @@ type Conn struct {
 	serverClosed bool
 	idle         bool // server is blocked in Read on an empty queue
 	out          []byte
-	outRead      int // bytes of out already handed to a client-side Read (TLS adapter)
+	outRead      int   // bytes of out already handed to a client-side Read (TLS adapter)
+	outMarks     []int // end offset in out of every server Write
 
 	reads, writes     int
 	failReadsAfter    int // -1 = never; k = the (k+1)-th Read call and all later calls fail
@@ -87,6 +88,8 @@ type Conn struct {
 	QuietReads        bool // do not log individual read events
 	MaxReadChunk      int  // if >0, deliver at most this many bytes per Read (segmentation inside a segment)
 	blockWritesOnGate chan struct{}
+	clientWriting     bool // the client is delivering one logical write in several segments (TLS records)
+	idleHeld          bool
 }
 
 func NewConn(id int, log *Log) *Conn {
@@ -143,7 +146,11 @@ func (c *Conn) Read(p []byte) (int, error) {
 		}
 		if !c.idle {
 			c.idle = true
-			l.appendLocked(Ev{"k": "idle", "conn": c.ID})
+			if c.clientWriting {
+				c.idleHeld = true // in the middle of a multi-segment client write: not a quiescent point
+			} else {
+				l.appendLocked(Ev{"k": "idle", "conn": c.ID})
+			}
 		}
 		l.cond.Wait()
 	}
@@ -168,7 +175,8 @@ func (c *Conn) Write(p []byte) (int, error) {
 	b := make([]byte, len(p))
 	copy(b, p)
 	c.out = append(c.out, b...)
-	l.appendLocked(Ev{"k": "write", "conn": c.ID, "b": b})
+	c.outMarks = append(c.outMarks, len(c.out))
+	l.appendLocked(Ev{"k": "write", "conn": c.ID, "b": b, "wi": len(c.outMarks) - 1})
 	return len(p), nil
 }
 
@@ -208,6 +216,27 @@ func (c *Conn) Send(b []byte, evs ...Ev) {
 		c.idle = false
 	}
 	l.cond.Broadcast()
+	l.mu.Unlock()
+}
+
+// BeginClientWrite / EndClientWrite bracket a client write that reaches the
+// server in several segments: the server blocking between two of them is not
+// logged as idle; if it is still blocked when the write is complete, it is.
+func (c *Conn) BeginClientWrite() {
+	c.log.mu.Lock()
+	c.clientWriting = true
+	c.idleHeld = false
+	c.log.mu.Unlock()
+}
+
+func (c *Conn) EndClientWrite() {
+	l := c.log
+	l.mu.Lock()
+	c.clientWriting = false
+	if c.idleHeld && c.idle && len(c.inq) == 0 && !c.serverClosed {
+		l.appendLocked(Ev{"k": "idle", "conn": c.ID})
+	}
+	c.idleHeld = false
 	l.mu.Unlock()
 }
 
@@ -335,6 +364,40 @@ func (c *Conn) ServerClosed() bool {
 	return c.serverClosed
 }
 
+// WriteIndexAt returns the index of the server Write that carried the byte
+// just before raw offset off.
+func (c *Conn) WriteIndexAt(off int) int {
+	c.log.mu.Lock()
+	defer c.log.mu.Unlock()
+	for i, m := range c.outMarks {
+		if off <= m {
+			return i
+		}
+	}
+	return len(c.outMarks) - 1
+}
+
+// RawConsumed is the number of raw bytes handed to the client side so far.
+func (c *Conn) RawConsumed() int {
+	c.log.mu.Lock()
+	defer c.log.mu.Unlock()
+	return c.outRead
+}
+
+// PendingRaw is the number of raw bytes the server wrote that the client side has not consumed.
+func (c *Conn) PendingRaw() int {
+	c.log.mu.Lock()
+	defer c.log.mu.Unlock()
+	return len(c.out) - c.outRead
+}
+
+// SkipRaw marks raw bytes (the plaintext 'S'/'N' reply) as consumed by the client.
+func (c *Conn) SkipRaw(n int) {
+	c.log.mu.Lock()
+	c.outRead += n
+	c.log.mu.Unlock()
+}
+
 // ClientEnd adapts the client side to a net.Conn (used by crypto/tls clients).
 type ClientEnd struct{ C *Conn }
 
@@ -345,7 +408,16 @@ func (e ClientEnd) Read(p []byte) (int, error) {
 	defer l.mu.Unlock()
 	for {
 		if c.outRead < len(c.out) {
-			n := copy(p, c.out[c.outRead:])
+			// never hand out bytes of two server Writes at once: what the client has decrypted
+			// can then be attributed to the Write that carried it
+			end := len(c.out)
+			for _, m := range c.outMarks {
+				if m > c.outRead {
+					end = m
+					break
+				}
+			}
+			n := copy(p, c.out[c.outRead:end])
 			c.outRead += n
 			return n, nil
 		}
